@@ -362,10 +362,20 @@ def explore_shard(args):
         cons.append(z3.Sum([z3.If(x != 0, 1, 0) for x in list(ev.values()) + list(sv.values())]) <= args['max_total'])
     if args.get('acyclic_only'):
         # "the dependency relation is acyclic" as a constraint: there is a position for every job such that every
-        # dependency points backwards (pos_* are existential: the program never reads them)
-        pos = [z3.Int(f'pos_{j}') for j in range(N)]
-        cons += [z3.And(p >= 0, p < N) for p in pos]
-        cons += [z3.Implies(x != 0, pos[i] < pos[j]) for (i, j), x in ev.items()]
+        # dependency points backwards (the order variables are existential: the program never reads them)
+        # propositional encoding of a strict total order: bef_i_j (i < j) says "i is placed before j"
+        bef = {}
+        for i in range(N):
+            for j in range(i + 1, N):
+                b = z3.Bool(f'bef_{i}_{j}')
+                bef[(i, j)] = b
+                bef[(j, i)] = z3.Not(b)
+        for i in range(N):
+            for j in range(N):
+                for k in range(N):
+                    if len({i, j, k}) == 3:
+                        cons.append(z3.Implies(z3.And(bef[(i, j)], bef[(j, k)]), bef[(i, k)]))
+        cons += [z3.Implies(x != 0, bef[(i, j)]) for (i, j), x in ev.items()]
         cons += [x == 0 for x in sv.values()]
     if args.get('fixed_flavour') is not None:
         cons += [z3.Int(f'fl_{j}') == args['fixed_flavour'] for j in range(N)]
